@@ -10,8 +10,11 @@ def S(*segs):
 
 
 class SkelPF:
-    def __init__(self, nd, nf, nboxes, tag="", repeated=None, ref_extra=0, files_per_level=1):
-        """nboxes: list per level; repeated: tuple (i, j) of field positions sharing one name (j > i)"""
+    def __init__(self, nd, nf, nboxes, tag="", repeated=None, ref_extra=0, files_per_level=1, derived=None):
+        """nboxes: list per level; repeated: tuple (i, j) of field positions sharing one name (j > i); derived: {j: (i, suffix)} -
+        the name at position j is the name at position i followed by the literal suffix (a header whose own names look like
+        the reader's renaming of repetitions: a, a_2, a)"""
+        self.derived = dict(derived or {})
         self.nd, self.nf, self.nboxes, self.tag = nd, nf, list(nboxes), tag
         self.L = len(nboxes) - 1
         self.ref_extra = ref_extra
@@ -49,15 +52,21 @@ class SkelPF:
         """keys of PlotfileCooker.fields in order (repeated names renamed name_2, name_3, ...)"""
         keys = []
         for i, nm in enumerate(self.names):
-            k = S(NameAtom(nm))
+            k = S(*self.name_segs(i))
             if k not in keys:
                 keys.append(k)
             else:
                 r = 2
-                while S(NameAtom(nm), f"_{r}") in keys:
+                while S(*self.name_segs(i), f"_{r}") in keys:
                     r += 1
-                keys.append(S(NameAtom(nm), f"_{r}"))
+                keys.append(S(*self.name_segs(i), f"_{r}"))
         return keys
+
+    def name_segs(self, i):
+        if i in self.derived:
+            j, suffix = self.derived[i]
+            return [NameAtom(self.names[j]), suffix]
+        return [NameAtom(self.names[i])]
 
     # -- text ---------------------------------------------------------------------------------------------------------
     def floats_line(self, vals):
@@ -71,7 +80,7 @@ class SkelPF:
         # the version line is free text of the writing code (HyperCLaw-V1.1, NavierStokes-V1.1, ...): a symbolic name that may
         # contain blanks; the reader has no business interpreting it
         out = [S(NameAtom(self.version, nows=False), "\n"), f"{self.nf}\n"]
-        out += [S(NameAtom(nm), "\n") for nm in self.names]
+        out += [S(*self.name_segs(i), "\n") for i in range(len(self.names))]
         out += [f"{nd}\n", S(FloatAtom(self.time, "repr"), "\n"), f"{self.L}\n"]
         out += [self.floats_line(self.geo_lo), self.floats_line(self.geo_hi)]
         nref = self.L + self.ref_extra
